@@ -6,7 +6,7 @@ use crate::{Args, Rng, Run, hex, unhex};
 use script::*;
 use bytes::BytesMut;
 use rustrtc::rtp::RtpHeader;
-use rustrtc::srtp::{SrtpContext, SrtpDirection, SrtpKeyingMaterial};
+use rustrtc::srtp::{SrtpContext, SrtpDirection, SrtpKeyingMaterial, SrtpPacket};
 use rustrtc::verif_hooks::srtp as hook;
 
 // ------------------------------------------------------------------------------------------
@@ -137,6 +137,89 @@ fn roc_oracle(run: &mut Run, c: &mut SrtpContext, roc: u32, last: u16) -> u64 {
     checked
 }
 
+/// RFC 3711 section 3.3.1 / appendix A pseudo-code for the index guess, written from the RFC text
+/// (independent of the implementation): v = ROC-1 / ROC / ROC+1 (mod 2^32).
+fn rfc3711_guess(roc: u32, s_l: u16, seq: u16) -> u32 {
+    if s_l < 32768 {
+        if seq as i32 - s_l as i32 > 32768 { roc.wrapping_sub(1) } else { roc }
+    } else if s_l as i32 - 32768 > seq as i32 { roc.wrapping_add(1) } else { roc }
+}
+
+/// every sequence number for one (roc, last): the estimate is the RFC's guess
+fn rfc_oracle(run: &mut Run, c: &mut SrtpContext, roc: u32, last: u16) -> u64 {
+    c.verif_set_state(roc, Some(last), 0);
+    for seq in 0..=65535u16 {
+        let e = c.verif_estimate_roc(seq);
+        let v = rfc3711_guess(roc, last, seq);
+        if e != v {
+            run.fail("roc:estimate-differs-from-rfc3711", &format!("roc1 {roc} {last} {seq} {e}"), &format!("roc {roc} s_l {last} seq {seq}: estimate {e}, RFC 3711 guess {v}"));
+            break;
+        }
+    }
+    65536
+}
+
+/// A REAL round trip at one point of the rollover space: a sender context placed at the true 48-bit
+/// index `I = v·2^16 + seq` (v = the in-window interpretation of `seq` for a receiver at `(roc,last)`:
+/// RFC 3711's guess, i.e. |I − R| < 2^15, or = 2^15 on the side the RFC resolves to) protects a packet;
+/// the receiver context positioned at `(roc,last)` must return exactly the original packet.
+/// Signature `roc:<ahead|behind|same>:<distance>`.
+struct RocPair { tx: SrtpContext, rx: SrtpContext, prof: &'static str }
+fn roc_pairs() -> Vec<RocPair> {
+    ["cm80", "gcm", "cm32", "null"].iter().map(|p| {
+        let km = SrtpKeyingMaterial::new((1..=16).collect(), (1..=salt_len(p) as u8).collect());
+        RocPair { tx: SrtpContext::new(0xabcd, profile_of(p), km.clone(), SrtpDirection::Sender).unwrap(),
+                  rx: SrtpContext::new(0xabcd, profile_of(p), km, SrtpDirection::Receiver).unwrap(), prof: p }
+    }).collect()
+}
+fn roc_roundtrip(run: &mut Run, pair: &mut RocPair, roc: u32, last: u16, seq: u16) -> u64 {
+    let v = rfc3711_guess(roc, last, seq);
+    // no wrap of the 32-bit ROC itself (2^48 packets per key is the RFC's hard limit)
+    if (roc == 0 && v == u32::MAX) || (roc == u32::MAX && v == 0) { return 0; }
+    let r = ((roc as i64) << 16) | last as i64;
+    let i = ((v as i64) << 16) | seq as i64;
+    let d = i - r;
+    let spec = PktSpec::simple(seq, 0xabcd, vec![seq as u8, (seq >> 8) as u8, 7]);
+    let pkt = spec.packet();
+    pair.tx.verif_set_state(v, Some(seq), 0);
+    let mut out = vec![0u8; pair.tx.protected_rtp_len(&pkt)];
+    if pair.tx.protect(&pkt, &mut out).is_err() { return 0; }
+    pair.rx.verif_set_state(roc, Some(last), 0);
+    let res = SrtpPacket::parse(BytesMut::from(&out[..])).map_err(|e| e.to_string())
+        .and_then(|p| pair.rx.unprotect(p).map_err(|e| e.to_string()));
+    let dir = if d > 0 { "ahead" } else if d < 0 { "behind" } else { "same" };
+    let ok = matches!(&res, Ok(p) if *p == pkt);
+    if !ok {
+        let case = format!("sess n,{p},0102030405060708090a0b0c0d0e0f10,{s},0102030405060708090a0b0c0d0e0f10,{s} roc-roundtrip receiver(roc={roc},last={last}) sender(index={i}) seq={seq}",
+            p = pair.prof, s = hex(&(1..=salt_len(pair.prof) as u8).collect::<Vec<u8>>()));
+        run.fail(&format!("roc:{dir}:{}", d.abs()), &format!("rocrt {} {roc} {last} {seq}", pair.prof),
+            &format!("{case}: receiver answered {:?}, estimate {} (true ROC {v})", res.as_ref().map(|_| "different packet").map_err(|e| e.clone()), pair.rx.verif_estimate_roc(seq)));
+    }
+    1
+}
+
+/// round trips at every change point (±2) of the implementation's estimate row AND of the RFC row for
+/// this `(roc,last)` — two piecewise-constant rows that differ anywhere differ at a change point of one
+/// of them — plus the fixed distances 0, ±1, ±(2^15−2 … 2^15).
+fn roc_roundtrips(run: &mut Run, pairs: &mut [RocPair], c: &mut SrtpContext, roc: u32, last: u16, k: usize) -> u64 {
+    let mut seqs: Vec<u16> = vec![0, 1, 65535, last];
+    c.verif_set_state(roc, Some(last), 0);
+    let mut pe = c.verif_estimate_roc(0);
+    let mut pr = rfc3711_guess(roc, last, 0);
+    for seq in 1..=65535u16 {
+        let e = c.verif_estimate_roc(seq);
+        let r = rfc3711_guess(roc, last, seq);
+        if e != pe || r != pr { for d in -2i32..=2 { seqs.push((seq as i32 + d).rem_euclid(65536) as u16); } }
+        pe = e; pr = r;
+    }
+    for d in [1i32, 2, 32766, 32767, 32768, 32769] { seqs.push(last.wrapping_add(d as u16)); seqs.push(last.wrapping_sub(d as u16)); }
+    seqs.sort(); seqs.dedup();
+    let n = pairs.len();
+    let mut done = 0;
+    for (j, seq) in seqs.iter().enumerate() { done += roc_roundtrip(run, &mut pairs[(k + j) % n], roc, last, *seq); }
+    done
+}
+
 fn roc_cases(run: &mut Run, rng: &mut Rng, thorough: bool) {
     let mut c = ctx_for_roc();
     let rocs: Vec<u32> = if thorough { vec![0, 1, 2, 0xffff, 0x7fff_ffff, u32::MAX - 1, u32::MAX] } else { vec![0, 1, u32::MAX] };
@@ -161,12 +244,20 @@ fn roc_cases(run: &mut Run, rng: &mut Rng, thorough: bool) {
     run.count_n("roc_estimate_update_evaluations_compared_with_model", evals);
     // the oracle runs on ALL `last` values for each roc (implementation only)
     let mut checked = 0u64;
-    let step = if thorough { 1 } else { 16 };
+    let mut rfc = 0u64;
+    let mut rts = 0u64;
+    let mut pairs = roc_pairs();
+    let step = if thorough { 2 } else { 16 };
     for &roc in &rocs {
         let mut last = 0u32;
-        while last <= 65535 { checked += roc_oracle(run, &mut c, roc, last as u16); last += step; }
-        for &l in &lasts { checked += roc_oracle(run, &mut c, roc, l); }
+        while last <= 65535 { checked += roc_oracle(run, &mut c, roc, last as u16); rfc += rfc_oracle(run, &mut c, roc, last as u16); last += step; }
+        for (k, &l) in lasts.iter().enumerate() {
+            checked += roc_oracle(run, &mut c, roc, l); rfc += rfc_oracle(run, &mut c, roc, l);
+            rts += roc_roundtrips(run, &mut pairs, &mut c, roc, l, k);
+        }
     }
+    run.count_n("roc_real_roundtrips_at_change_points_and_boundaries", rts);
+    run.count_n("roc_triples_compared_with_rfc3711_guess_on_impl", rfc);
     run.count_n("roc_oracle_pairs_checked_on_impl", checked);
     // single points with an arbitrary `roc` argument to update (not only the estimate)
     for _ in 0..(if thorough { 20000 } else { 3000 }) {
@@ -568,6 +659,15 @@ pub fn replay(case: &str) {
         "sess" => replay_script(rest, Expect::Sync),
         "sessw" | "forge" | "evict" => replay_script(rest, Expect::Nothing),
         "hdr" => { let mut run = Run::new("c04", "/tmp/vh-replay-c04"); hdr_case(&mut run, &unhex(rest.trim())); print_fails(&run); }
+        "rocrt" => {
+            let f: Vec<&str> = rest.split_whitespace().collect();
+            let mut run = Run::new("c04", "/tmp/vh-replay-c04");
+            let mut pairs = roc_pairs();
+            let pair = pairs.iter_mut().find(|p| p.prof == f[0]).unwrap();
+            roc_roundtrip(&mut run, pair, f[1].parse().unwrap(), f[2].parse().unwrap(), f[3].parse().unwrap());
+            println!("impl: round trip at roc {} last {} seq {} → {}", f[1], f[2], f[3], if run.fails.is_empty() { "ok" } else { "FAILED" });
+            print_fails(&run);
+        }
         "roc1" => {
             let f: Vec<&str> = rest.split_whitespace().collect();
             let mut c = ctx_for_roc();
@@ -608,6 +708,6 @@ pub fn run(args: &Args) {
     let nw = if t { 3000 } else { 350 };
     for i in 0..nw { let prof = PROFILES[i % 4]; let c = wild_case(&mut rng, i, prof); emit(&mut run, "sessw", &c); }
     run.notes.insert("three_way".into(), serde_json::json!("shape/boundary/history cases are mirrored op by op on webrtc-srtp 0.17 contexts for cm80, cm32 and gcm (it has no NULL-cipher profile): protect bytes, unprotect results and acceptance must be equal"));
-    run.notes.insert("roc".into(), serde_json::json!("rocrow: estimate and update for all 65536 sequence numbers per (roc,last) line, run-length encoded, compared with the model; the window oracle runs on the implementation for every `last` (thorough) / every 16th + boundary pool (quick)"));
+    run.notes.insert("roc".into(), serde_json::json!("rocrow: estimate and update for all 65536 sequence numbers per (roc,last) line, run-length encoded, compared with the model; the window oracle and the RFC 3711 guess oracle run on the implementation for every 2nd `last` (thorough) / every 16th (quick) + the boundary pool; real sender→receiver round trips at every change point of the estimate row and of the RFC row and at distances 0,±1,±2,±32766..±32769"));
     run.finish();
 }
